@@ -284,4 +284,89 @@ theorem fLeft_perm (ops : JoinOps) (l : Row) (ms ms' : List Row) (h : ms.Perm ms
   · exact h.map _
   · exact List.Perm.refl _
 
+
+/-! ### right join: per right row, then as a multiset the inner join plus the padded unmatched right rows -/
+
+/-- right outer join in nested-loop form: each right row with its partners (in left-table order), or padded -/
+def nlRight (ops : JoinOps) (kl kr : Row → Val) (L R : List Row) : List Row :=
+  R.flatMap (fun r =>
+    let ms := L.filter (fun l => Val.eq (kl l) (kr r))
+    if ms.isEmpty then [ops.padR r] else ms.map (fun l => ops.pair l r))
+
+theorem hashRight_eq (ops : JoinOps) (kl kr) (L R : List Row) :
+    hashRight ops kl kr L R = nlRight ops kl kr L R := by
+  simp only [hashRight, nlRight]
+  apply flatMap_congr'
+  intro r _
+  rw [buildLookup_get]
+  simp only [optClass, classOf]
+  by_cases he : (L.filter (fun l => Val.eq (kl l) (kr r))).isEmpty = true
+  · simp [he]
+  · simp [he]
+
+theorem flatMap_split {α β : Type} (l : List α) (f g : α → List β) :
+    (l.flatMap (fun a => f a ++ g a)).Perm (l.flatMap f ++ l.flatMap g) := by
+  induction l with
+  | nil => simp
+  | cons a l ih =>
+    simp only [List.flatMap_cons]
+    refine ((List.Perm.refl (f a ++ g a)).append ih).trans ?_
+    simp only [List.append_assoc]
+    refine List.Perm.append_left _ ?_
+    rw [← List.append_assoc, ← List.append_assoc]
+    exact List.Perm.append_right _ List.perm_append_comm
+
+theorem flatMap_ite_singleton {α β : Type} (l : List α) (p : α → Bool) (g : α → β) :
+    l.flatMap (fun a => if p a then [g a] else []) = (l.filter p).map g := by
+  induction l with
+  | nil => rfl
+  | cons a l ih =>
+    simp only [List.flatMap_cons, List.filter_cons, ih]
+    cases p a <;> simp
+
+/-- the double loop can be run in either order -/
+theorem flatMap_swap {α β γ : Type} (p : α → β → Bool) (g : α → β → γ) : ∀ (L : List α) (R : List β),
+    (R.flatMap (fun r => (L.filter (fun l => p l r)).map (fun l => g l r))).Perm
+      (L.flatMap (fun l => (R.filter (fun r => p l r)).map (fun r => g l r))) := by
+  intro L
+  induction L with
+  | nil => intro R; simp
+  | cons l L ih =>
+    intro R
+    have h1 : (fun r => (List.filter (fun l' => p l' r) (l :: L)).map (fun l' => g l' r)) =
+        (fun r => (if p l r then [g l r] else []) ++ (L.filter (fun l' => p l' r)).map (fun l' => g l' r)) := by
+      funext r
+      simp only [List.filter_cons]
+      cases p l r <;> simp
+    rw [h1]
+    refine (flatMap_split R _ _).trans ?_
+    rw [flatMap_ite_singleton R (fun r => p l r) (fun r => g l r), List.flatMap_cons]
+    exact List.Perm.append_left _ (ih R)
+
+theorem nlRight_perm (ops : JoinOps) (kl kr) (L R : List Row) :
+    (nlRight ops kl kr L R).Perm
+      (nlInner ops kl kr L R ++ (unmatchedL kr kl R L).map ops.padR) := by
+  have h1 : nlRight ops kl kr L R =
+      R.flatMap (fun r => (L.filter (fun l => Val.eq (kl l) (kr r))).map (fun l => ops.pair l r)
+        ++ (if !(L.any (fun l => Val.eq (kr r) (kl l))) then [ops.padR r] else [])) := by
+    simp only [nlRight]
+    apply flatMap_congr'
+    intro r _
+    have hany : L.any (fun l => Val.eq (kr r) (kl l)) = !(L.filter (fun l => Val.eq (kl l) (kr r))).isEmpty := by
+      have : (fun l => Val.eq (kr r) (kl l)) = (fun l => Val.eq (kl l) (kr r)) := by funext l; rw [Val.eq_symm]
+      rw [this]
+      induction L with
+      | nil => rfl
+      | cons a L ih => simp only [List.any_cons, List.filter_cons]; cases Val.eq (kl a) (kr r) <;> simp [ih]
+    rw [hany]
+    by_cases he : (L.filter (fun l => Val.eq (kl l) (kr r))).isEmpty = true
+    · simp [he, List.isEmpty_iff.1 he]
+    · simp [he]
+  rw [h1]
+  refine (flatMap_split R _ _).trans ?_
+  apply List.Perm.append
+  · exact flatMap_swap (fun l r => Val.eq (kl l) (kr r)) (fun l r => ops.pair l r) L R
+  · rw [flatMap_ite_singleton R (fun r => !(L.any (fun l => Val.eq (kr r) (kl l)))) ops.padR]
+    rfl
+
 end Petl
